@@ -180,7 +180,7 @@ class C23(Check):
         held = set()
         for ino in list(fs.files.values()) + [r[2] for r in fs.retired]:
             held.update(ino.data)
-        lost = set(lost_before) | set(t for (i, p, t) in fs.written if t != HEADER and t not in held)
+        lost = set(lost_before) | set(t for (i, p, t) in fs.written if t != HEADER and t != "" and t not in held)
         lastflush, need = self._durable(fs)
         return lost, (lastflush, [t for t in need if t not in lost_before])
 
@@ -188,7 +188,7 @@ class C23(Check):
     def _durable(fs):
         """Records written before the most recent completed application-level flush (Log.flush = file.flush + os.fsync)."""
         lastflush = max([i for i, p in fs.fsync_log if p and p.rsplit("/", 1)[-1].startswith("l1")] or [-1])
-        return lastflush, [t for (i, p, t) in fs.written if t != HEADER and i < lastflush]
+        return lastflush, [t for (i, p, t) in fs.written if t != HEADER and t != "" and i < lastflush]
 
     def _judge(self, plan, script, concrete, res, fs, killed, kill, faults, out, tr, phase, lost, must=None):
         sig_cfg = "keep=%d size=%d reuse=%s" % (plan["keep"], plan["size"], plan["reuse"])
@@ -215,7 +215,7 @@ class C23(Check):
         main = base[0] if base else fam[0].rsplit("/", 1)[0] + "/l1.txt"
         root = main[:-4]
         ordered = [p for p in sorted((p for p in fam if p != main), reverse=True)] + ([main] if main in files else [])
-        S = [t for (i, p, t) in fs.written if t != HEADER and t not in lost]         # the record stream in write order
+        S = [t for (i, p, t) in fs.written if t != HEADER and t != "" and t not in lost]         # the record stream in write order
         pos = dict((t, i) for i, t in enumerate(S))
         if len(pos) != len(S):
             raise RuntimeError("harness: records are not unique")
@@ -245,7 +245,7 @@ class C23(Check):
         for path, how, ino in fs.retired:
             if not path.rsplit("/", 1)[-1].startswith("l1"):
                 continue
-            gone = [t for t in ino.data if t != HEADER and t in pos and pos[t] not in seen]
+            gone = [t for t in ino.data if t != HEADER and t != "" and t in pos and pos[t] not in seen]
             if how in ("rename-over", "remove") and path == oldest:
                 if gone:
                     out.probe("designed-drop")
